@@ -35,7 +35,7 @@ impl<F: Fam, const N: usize> Sut<F, N> {
     }
 }
 
-pub const OPS: [&str; 16] = [
+pub const OPS: [&str; 17] = [
     "insert",
     "insert_key_value",
     "checked_insert",
@@ -52,6 +52,7 @@ pub const OPS: [&str; 16] = [
     "iter_probe",
     "fmt_probe",
     "entry",
+    "insert_unchecked",
 ];
 const O_INSERT: usize = 0;
 const O_IKV: usize = 1;
@@ -69,18 +70,19 @@ const O_FORK: usize = 12;
 const O_ITER: usize = 13;
 const O_FMT: usize = 14;
 const O_ENTRY: usize = 15;
+const O_UNCHECKED: usize = 16;
 
 pub struct Cfg {
-    pub weights: [u32; 16],
+    pub weights: [u32; 17],
     pub allow_forget: bool,
     pub profile: &'static str,
     /// probability (num/8) that an inserting/looking-up op targets a present class
     pub p_present: u64,
 }
 
-pub fn weights_for(prop: &str) -> [u32; 16] {
+pub fn weights_for(prop: &str) -> [u32; 17] {
     //            ins ikv chk gmu idx idm rem ren ret clr drn con frk itr fmt ent
-    let mut w = [14, 6, 8, 4, 3, 3, 10, 5, 3, 1, 2, 1, 1, 2, 1, 6];
+    let mut w = [14, 6, 8, 4, 3, 3, 10, 5, 3, 1, 2, 1, 1, 2, 1, 6, 0];
     match prop {
         "C01" => {
             w[O_FORK] = 0;
@@ -111,6 +113,13 @@ pub fn weights_for(prop: &str) -> [u32; 16] {
             w[O_REMOVE_ENTRY] = 8;
         }
         "C15" => w[O_FORK] = 14,
+        "C18" => {
+            // every plain insert becomes insert_unchecked (called only inside its contract)
+            w[O_UNCHECKED] = 24;
+            w[O_INSERT] = 2;
+            w[O_FMT] = 0;
+            w[O_FORK] = 1;
+        }
         "C19" => w[O_FMT] = 30,
         _ => {}
     }
@@ -126,12 +135,14 @@ fn make_cfg(prop: &str, rng: &mut Rng, allow_forget: bool) -> Cfg {
     match profile {
         "fill" => {
             w[O_INSERT] *= 3;
+            w[O_UNCHECKED] *= 3;
             w[O_IKV] *= 2;
             w[O_CHECKED] *= 2;
             p_present = 2;
         }
         "churn-at-full" => {
             w[O_INSERT] *= 2;
+            w[O_UNCHECKED] *= 2;
             w[O_CHECKED] *= 2;
             w[O_REMOVE] *= 2;
             w[O_REMOVE_ENTRY] *= 2;
@@ -519,6 +530,11 @@ impl<'a> Engine<'a> {
         self.fp_step(s, which, class, 0);
         let pre = s.model.get(class).cloned();
         let full = s.model.is_full();
+        if which == O_UNCHECKED && pre.is_none() && full {
+            // outside the documented precondition: the harness never makes that call
+            self.cx.rep.num("insert_unchecked_skipped_outside_contract", 1);
+            return;
+        }
         let fill = fill_name(s.model.len(), N);
         let pos = pos_name(&s.order, class);
         if !self.light { self.cx.rep.hit(&format!("{}:{}:{}", name, pos, fill)); }
@@ -531,6 +547,11 @@ impl<'a> Engine<'a> {
         let r: Caught<R> = fault::catch(|| match which {
             O_INSERT => Ok(m.insert(k, v).map(|ov| {
                 ov.chk("insert() result");
+                (None, ov.payload(), ov.id())
+            })),
+            // SAFETY: len < N or the key is present (checked above)
+            O_UNCHECKED => Ok(unsafe { m.insert_unchecked(k, v) }.map(|ov| {
+                ov.chk("insert_unchecked() result");
                 (None, ov.payload(), ov.id())
             })),
             O_IKV => Ok(m.insert_key_value(k, v).map(|(ok, ov)| {
@@ -1553,7 +1574,7 @@ impl<'a> Engine<'a> {
         {
             macro_rules! s { () => { &mut suts[ix] } }
             match op {
-                O_INSERT | O_IKV | O_CHECKED => self.op_insert(s!(), op),
+                O_INSERT | O_IKV | O_CHECKED | O_UNCHECKED => self.op_insert(s!(), op),
                 O_GETMUT => self.op_get_mut(s!()),
                 O_INDEX => self.op_index(s!(), false),
                 O_INDEXMUT => self.op_index(s!(), true),
@@ -1624,7 +1645,8 @@ impl<'a> Engine<'a> {
         let hist = self.h.hist;
         let fam = F::NAME;
         let profile = self.cfg.profile;
-        self.cx.rep.absorb_violations("C02", &|| {
+        let mem_prop = crate::common::mem_prop(&self.cx.prop);
+        self.cx.rep.absorb_violations(mem_prop, &|| {
             let mut v = vec![format!("history {} family={} N={} profile={}", hist, fam, N, profile)];
             v.extend(ops.iter().cloned());
             v
@@ -1645,6 +1667,7 @@ pub fn required_rows(prop: &str) -> Vec<&'static str> {
         "C10" => vec!["drain", "into_iter", "into_keys", "into_values"],
         "C12" => vec!["insert", "insert_key_value", "checked_insert", "remove_entry", "entry."],
         "C15" => vec!["clone", "drop-copy"],
+        "C18" => vec!["insert_unchecked"],
         "C19" => vec!["fmt:map-debug", "fmt:map-alt-debug", "fmt:map-display", "fmt:Iter:", "fmt:IterMut", "fmt:Keys", "fmt:Values:", "fmt:ValuesMut", "fmt:IntoIter", "fmt:IntoKeys", "fmt:Drain"],
         _ => vec![],
     }
@@ -1665,5 +1688,6 @@ pub fn history<F: Fam, const N: usize>(cx: &mut Ctx, hist: u64, mut rng: Rng, ma
         focus: 1,
     };
     e.light = e.cx.args.flag("light");
+    e.h.retag_unchecked = e.cx.prop == "C18";
     e.run_history::<F, N>(max_steps);
 }
